@@ -146,7 +146,7 @@ def one_case(ctx, case):
         port = free_port()
         server = subprocess.Popen([ctx["plain"], "serve", str(port)], cwd=ws.root, stdout=subprocess.DEVNULL, stderr=subprocess.DEVNULL)
         up = False
-        for _ in range(100):
+        for _ in range(600):
             try:
                 socket.create_connection(("127.0.0.1", port), timeout=0.2).close()
                 up = True
